@@ -17,20 +17,30 @@ def q(s): return '"' + s.replace('"', '""') + '"'
 def z(s): return '(%s)%%Z' % s
 lines = ['(** GENERATED on every run by tools/gen_consts.py from the Go source (non-test code of lib): every package-level string',
          '    constant with the value the type checker gives it, and every non-zero floating-point literal with its exact decimal',
-         '    value (numerator, denominator) and the binary64 the compiler rounds it to. *)',
-         'From Coq Require Import List String ZArith Floats.', 'Import ListNotations.', 'Local Open Scope string_scope.', '',
+         '    value (numerator, denominator). The binary64 the compiler rounds each literal to is in Gen/ConstsF.v. *)',
+         'From Coq Require Import List String ZArith.', 'Import ListNotations.', 'Local Open Scope string_scope.', '',
          '(* package directory, file:name, value *)',
          'Definition go_string_consts : list (string * string * string) := [']
 lines.append(';\n'.join('  (%s, %s, %s)' % (q(os.path.dirname(s['file'])), q('%s:%s' % (s['file'], s['name'])), q(s['value'])) for s in d['strings'] or []))
 lines.append('].')
 lines.append('')
-lines.append('(* package directory, file:function (or <package>.name), literal as written, (numerator, denominator), binary64 *)')
-lines.append('Definition go_float_literals : list (string * string * string * (Z * Z) * float) := [')
-lines.append(';\n'.join('  (%s, %s, %s, (%s, %s), (%s)%%float)' % (q(os.path.dirname(f['file'])), q('%s:%s' % (f['file'], f['where'])), q(f['text']), z(f['num']), z(f['den']), f['hex'])
+lines.append('(* package directory, file:function (or <package>.name), literal as written, (numerator, denominator) *)')
+lines.append('Definition go_float_literals : list (string * string * string * (Z * Z)) := [')
+lines.append(';\n'.join('  (%s, %s, %s, (%s, %s))' % (q(os.path.dirname(f['file'])), q('%s:%s' % (f['file'], f['where'])), q(f['text']), z(f['num']), z(f['den']))
                         for f in d['floats'] or []))
 lines.append('].')
-out = os.path.join(VERIF, 'coq', 'Gen', 'Consts.v')
-txt = '\n'.join(lines) + '\n'
-if not os.path.exists(out) or open(out).read() != txt:
-    open(out, 'w').write(txt)
+linesF = ['(** GENERATED on every run by tools/gen_consts.py from the Go source: the binary64 (hexadecimal notation, as strconv prints',
+          '    the value go/constant rounds the literal to) of every non-zero floating-point literal of Gen/Consts.v, in the same order.',
+          '    Kept apart so that Properties/*.v do not load the floating-point library. *)',
+          'From Coq Require Import List String ZArith Floats.', 'Import ListNotations.', 'Local Open Scope string_scope.', '',
+          '(* package directory, file:function (or <package>.name), (numerator, denominator), binary64 *)',
+          'Definition go_float_binary64 : list (string * string * (Z * Z) * float) := [']
+linesF.append(';\n'.join('  (%s, %s, (%s, %s), (%s)%%float)' % (q(os.path.dirname(f['file'])), q('%s:%s' % (f['file'], f['where'])), z(f['num']), z(f['den']), f['hex'])
+                         for f in d['floats'] or []))
+linesF.append('].')
+for name, ls in (('Consts.v', lines), ('ConstsF.v', linesF)):
+    out = os.path.join(VERIF, 'coq', 'Gen', name)
+    txt = '\n'.join(ls) + '\n'
+    if not os.path.exists(out) or open(out).read() != txt:
+        open(out, 'w').write(txt)
 print(json.dumps({'string_consts': len(d['strings'] or []), 'float_literals': len(d['floats'] or [])}))
